@@ -5,9 +5,16 @@ res = json.load(open('/tmp/vs/results.json'))
 for key, r in sorted(res.items()):
     if not r.get('ok'):
         print('skip (not confirmed):', key); continue
-    pid, ch = key.split('/')
-    k = ch[-1]
-    src = f'/tmp/seed/{pid}/{ch}'
+    root = '/tmp/seed'
+    off = 0
+    if ':' in key:
+        rn, key2 = key.split(':')
+        root, off = '/tmp/' + rn, 2 * (int(rn[4:] or 1) - 1)
+    else:
+        key2 = key
+    pid, ch = key2.split('/')
+    k = str(int(ch[-1]) + off)
+    src = f'{root}/{pid}/{ch}'
     dst = f'/verif/seeded/{pid}-{k}'
     if os.path.exists(os.path.join(dst, 'meta.json')) or not os.path.exists(src):
         continue
